@@ -240,12 +240,13 @@ CHECKS["C13"] = dict(
 )
 CHECKS["C14"] = dict(
     title="hash sets are linearizable incl. growth",
-    units=_units("harness/sets_hash.cpp", [1, 2, 3, 4, 5]),
+    units=_units("harness/sets_hash.cpp", [1, 2, 3, 4, 5, 6]),
     rule=SET_RULE,
     explanation="MichaelHashSet (2 buckets, colliding hash; Michael/Lazy/Iterable lists; HP, DHP, RCU), SplitListSet (dynamic and static bucket tables of at most 8 buckets, load factor 1, so the 3rd and 5th "
                 "insert double the table and later operations initialise buckets recursively; Michael/Lazy/Iterable lists; HP, DHP, RCU), FeldmanHashSet (head/array bits 4/2, hashes sharing 4, 6 and 8 low bits "
                 "so inserts expand slots into array nodes; HP, DHP, RCU); unit hash5: the intrusive MichaelHashSet, SplitListSet (HP) and FeldmanHashSet (HP, RCU) with unlink(item), items owned by the harness "
-                "(disposer contract: inserted items disposed exactly once, refused items never, no access to an item after its disposer ran)." + SET_EXPL_TAIL,
+                "(disposer contract: inserted items disposed exactly once, refused items never, no access to an item after its disposer ran); unit hash6: the map classes MichaelHashMap over MichaelKVList (HP, RCU), "
+                "SplitListMap and FeldmanHashMap (HP) behind the same adapter (harness/maps.h)." + SET_EXPL_TAIL,
     design_ref="DESIGN.md 9/C14",
     level_text="Exhaustive within bounds on the real hash sets incl. programs that race with table growth, bucket initialisation and slot expansion.",
 )
@@ -259,7 +260,7 @@ CHECKS["C15"] = dict(
            dict(name="trees2-s1", src="harness/sets_trees.cpp", cxxflags=["-DFAMILY=2"], args=["--script", "1"], thorough_only=True)] +
           _units("harness/sets_trees.cpp", [3, 4, 5]),
     rule=SET_RULE,
-    explanation="SkipListSet (4-level scripted tower heights: all low, all high, mixed; HP, DHP, RCU), EllenBinTreeSet (HP, DHP, RCU), BronsonAVLTreeMap (RCU; injecting monitor over the shipped spin lock and over a mutex, "
+    explanation="unit trees6: the map classes SkipListMap (HP, RCU) and EllenBinTreeMap (HP) behind the same adapter (harness/maps.h). SkipListSet (4-level scripted tower heights: all low, all high, mixed; HP, DHP, RCU), EllenBinTreeSet (HP, DHP, RCU), BronsonAVLTreeMap (RCU; injecting monitor over the shipped spin lock and over a mutex, "
                 "pool monitor over vyukov_queue_pool): set/map linearizability; extract_min/max: empty only if the container was empty at a linearization point inside the call, the key returned was present, "
                 "and no key present during the whole call is smaller (larger)." + SET_EXPL_TAIL,
     design_ref="DESIGN.md 9/C15, 7.2",
@@ -274,7 +275,8 @@ CHECKS["C18"] = dict(
            dict(name="trees1-s1", src="harness/sets_trees.cpp", cxxflags=["-DFAMILY=1"], args=["--property", "C18", "--script", "1"], tier_args=dict(quick=["--bound", "1"])),
            dict(name="trees2-s2", src="harness/sets_trees.cpp", cxxflags=["-DFAMILY=2"], args=["--property", "C18", "--script", "2"], tier_args=dict(quick=["--bound", "1"])),
            dict(name="trees3", src="harness/sets_trees.cpp", cxxflags=["-DFAMILY=3"], args=["--property", "C18"], tier_args=dict(quick=["--bound", "1"])),
-           dict(name="trees5", src="harness/sets_trees.cpp", cxxflags=["-DFAMILY=5"], args=["--property", "C18"], tier_args=dict(quick=["--bound", "1"]))],
+           dict(name="trees5", src="harness/sets_trees.cpp", cxxflags=["-DFAMILY=5"], args=["--property", "C18"], tier_args=dict(quick=["--bound", "1"])),
+           dict(name="trees6-s1", src="harness/sets_trees.cpp", cxxflags=["-DFAMILY=6"], args=["--script", "1"])],
     rule=SET_RULE + "; for C18 only the quiescent post-conditions are judged (aux counter quiescent_states = number of quiescent points examined)",
     aux_names=["quiescent_states", "aux1", "aux2", "aux3"],
     explanation="post-condition evaluated at the quiescent point reached by every explored execution of the C13/C14/C15 programs: traversal strictly increasing (ordered containers) / without duplicates (hash sets) "
@@ -286,11 +288,11 @@ CHECKS["C18"] = dict(
 
 CHECKS["C16"] = dict(
     title="lock-based hash containers across resizes",
-    units=_units("harness/sets_lock.cpp", [1, 2, 3]),
+    units=_units("harness/sets_lock.cpp", [1, 2, 3, 4]),
     rule=SET_RULE,
     explanation="CuckooSet (striping and refinable mutex policies over the scheduler's recursive mutex; list and vector<2> probe sets; stored hashes on/off; initial size 4, probe set 2, threshold 1 so that the "
                 "third colliding insert relocates and the fifth resizes; two colliding hash functions) and StripedSet (std::list and std::set buckets; striping and refinable policies; a bucket of more than "
-                "one item triggers a resize of the 16-bucket table): programs race the insert that resizes with operations on keys that move, two resizers, and update/find; deadlock = violation." + SET_EXPL_TAIL,
+                "one item triggers a resize of the 16-bucket table): programs race the insert that resizes with operations on keys that move, two resizers, and update/find; deadlock = violation. Unit lock4: CuckooMap (striping list with stored hashes, refinable vector<2>) and StripedMap (std::list, std::map) behind the same adapter." + SET_EXPL_TAIL,
     design_ref="DESIGN.md 9/C16",
     level_text="Exhaustive within bounds on the real containers; blocking on the policy's mutexes is handled by the scheduler, so lock-order deadlocks are found as such.",
 )
@@ -415,7 +417,7 @@ CHECKS["C20"] = dict(
          "(variant, start state, first operation) subtree; aux counters give the number of sequences and operations",
     aux_names=["unused", "sequences_replayed", "operations_checked", "aux3"],
     execs_aux=1,
-    explanation="all set/map variants of C13-C16 (lists, hash sets, skip lists, trees, cuckoo/striped sets; HP, DHP, RCU, nogc; container and intrusive classes) against std::map, the queues of C06/C07 against (bounded) "
+    explanation="all set and map variants of C13-C16 (lists, hash sets and maps, skip lists, trees, cuckoo/striped sets and maps; HP, DHP, RCU, nogc; container and intrusive classes) against std::map, the queues of C06/C07 against (bounded) "
                 "std::deque, stacks and FCDeque against std::vector/std::deque, priority queues against std::priority_queue: after every call the return value (incl. the update() pair), the value seen by find/erase/"
                 "extract functors, the number of insert/update functor calls and the update functor's new-item flag are compared with the model; after every call on a set the membership and value of every key of the "
                 "universe, size(), empty() and the traversal are compared too, extract_min/extract_max must return the exact extreme key; queues are drained at the end of every sequence; intrusive variants: every "
